@@ -64,7 +64,7 @@ ok &= res["conf"]["ndiv"] > 0
 # TLC must find each of those defects in the MODEL too (non-vacuity of the model-level checks)
 if "--model" in sys.argv:
     import re
-    ALL = ["654ac52", "3f5c312", "66b62cc", "7418747", "f6702a7", "73fde95", "ea3a2f4", "6ca130a"]
+    ALL = ["654ac52", "3f5c312", "66b62cc", "7418747", "f6702a7", "73fde95", "ea3a2f4", "6ca130a", "a23716c"]
     cases = [("66b62cc", "MC_Node", "MC_Node_simforge.cfg", "C06", "-simulate num=20000 -depth 61", "Invariant NoPanic is violated"),
              ("654ac52", "MC_Node", "MC_Node_simforge.cfg", "C11", "-simulate num=60000 -depth 61", "Invariant MonitorsQuiet is violated"),
              ("3f5c312", "MC_Node", "MC_Node_simforge.cfg", "C19", "-simulate num=20000 -depth 61", "Invariant MonitorsQuiet is violated"),
